@@ -1,7 +1,7 @@
 (* Executable consensus-node model (prototype v2: ghost history + commit log, fixed/unfixed commit) (Core + Aggregator + consensus
    Synchronizer + MempoolDriver/PayloadWaiter + Proposer), mirroring consensus/src/*.rs. *)
 From Coq Require Import List NArith Lia Bool.
-From HS Require Import Guards.
+From HS Require Import GTac.
 Import ListNotations.
 Open Scope N_scope.
 
@@ -26,6 +26,9 @@ Fixpoint digest_eqb (d1 d2 : digest) : bool :=
   | DOther k1, DOther k2 => k1 =? k2
   | _, _ => false
   end.
+
+Definition dround d := match d with DBlk _ r _ _ => r | _ => 0 end.
+Definition dparent d := match d with DBlk _ _ _ p => p | _ => DZero end.
 
 Fixpoint ddepth (d : digest) : nat :=
   match d with DBlk _ _ _ p => S (ddepth p) | _ => O end.
@@ -243,7 +246,7 @@ Definition lift {A} (r : res A) : M A := fun s => (s, [], r).
 Section Node.
   Variable c : Committee.
   Variable me : N.
-  Variable fixedc : bool.   (* false: commit() as on the pinned tree; true: with the watermark/ordering fix *)
+  Variable dq : DqCfg.       (* deque discipline of commit(); [src_dq] = as regenerated from the source *)
 
   (* advance_round *)
   Definition advance_round (r : N) : M unit :=
@@ -314,21 +317,11 @@ Section Node.
       let s := set_sync s rest reqs in
       set_loopback s (s_loopback s ++ woken)).
 
-  (* commit, as in core.rs on the pinned tree: walk with push_front, deliver with pop_back *)
-  Fixpoint commit_walk_old (fuel : nat) (lcr : N) (parent : Block) (acc : list Block) : M (list Block) :=
-    match fuel with
-    | O => panic 900
-    | S f =>
-        if g_commit_walk lcr (b_round parent) then
-          a <- get_parent_block parent ;;
-          match a with
-          | None => panic 131   (* "We should have all the ancestors by now" *)
-          | Some anc => commit_walk_old f lcr anc (anc :: acc)   (* push_front *)
-          end
-        else ret acc
-    end.
-
-  (* fixed: stop at the watermark; acc ends up oldest first *)
+  (* commit(): the ancestor walk and the delivery order follow the deque operations of core.rs, which are
+     REGENERATED from the source (Guards.v): g_commit_stop is the early `break` test (constant false when
+     the source has none), g_commit_anc_front / g_commit_head_front say at which end ancestors / the head
+     are pushed, g_commit_head_first whether the head is pushed before the walk, g_commit_pop_back from
+     which end delivery drains. The deque is a list whose first element is the front. *)
   Fixpoint commit_walk (fuel : nat) (lcr : N) (parent : Block) (acc : list Block) : M (list Block) :=
     match fuel with
     | O => panic 900
@@ -336,8 +329,9 @@ Section Node.
         if g_commit_walk lcr (b_round parent) then
           a <- get_parent_block parent ;;
           match a with
-          | None => panic 131
-          | Some anc => if b_round anc <=? lcr then ret acc else commit_walk f lcr anc (anc :: acc)
+          | None => panic 131   (* "We should have all the ancestors by now" *)
+          | Some anc => if dq_stop dq (b_round anc) lcr then ret acc
+                        else commit_walk f lcr anc (dq_push (dq_anc_front dq) anc acc)
           end
         else ret acc
     end.
@@ -353,14 +347,11 @@ Section Node.
     if g_commit_skip (s_last_committed s) (b_round b) then ret tt
     else
       let fuel := S (S (ddepth (block_digest b))) in
-      if fixedc then
-        anc <- commit_walk fuel (s_last_committed s) b [] ;;
-        modify (fun s => set_last_committed s (b_round b)) ;;;
-        deliver_all (anc ++ [b])
-      else
-        dq <- commit_walk_old fuel (s_last_committed s) b [] ;;
-        modify (fun s => set_last_committed s (b_round b)) ;;;
-        deliver_all (rev (b :: dq)).               (* push_front(block); pop_back until empty *)
+      let acc0 := if dq_head_first dq then dq_push (dq_head_front dq) b [] else [] in
+      q <- commit_walk fuel (s_last_committed s) b acc0 ;;
+      modify (fun s => set_last_committed s (b_round b)) ;;;
+      let q' := if dq_head_first dq then q else dq_push (dq_head_front dq) b q in
+      deliver_all (if dq_pop_back dq then rev q' else q').
 
   Definition increase_last_voted (r : N) : M unit :=
     modify (fun s => set_last_voted s (N.max (s_last_voted s) r)).
@@ -575,13 +566,13 @@ Definition B7 := mkblk (mkqc B6) None 7.
 Definition commits (tr : list (list Out * res unit)) : list N :=
   flat_map (fun x => flat_map (fun o => match o with OCommit b => [b_round b] | _ => [] end) (fst x)) tr.
 Eval vm_compute in
-  commits (snd (run c4 3 false (map (fun b => ([], EvPropose b)) [B1;B3;B5;B6;B7]) (init c4))).
+  commits (snd (run c4 3 pinned_dq (map (fun b => ([], EvPropose b)) [B1;B3;B5;B6;B7]) (init c4))).
 Eval vm_compute in
-  commits (snd (run c4 3 true (map (fun b => ([], EvPropose b)) [B1;B3;B5;B6;B7]) (init c4))).
+  commits (snd (run c4 3 src_dq (map (fun b => ([], EvPropose b)) [B1;B3;B5;B6;B7]) (init c4))).
 Definition G3 := mkblk qc_genesis (Some (mktc 2 0)) 3.
 Definition G4 := mkblk (mkqc G3) None 4.
 Definition G5 := mkblk (mkqc G4) None 5.
 Eval vm_compute in
-  commits (snd (run c4 3 false (map (fun b => ([], EvPropose b)) [G3;G4;G5]) (init c4))).
+  commits (snd (run c4 3 pinned_dq (map (fun b => ([], EvPropose b)) [G3;G4;G5]) (init c4))).
 Eval vm_compute in
-  commits (snd (run c4 3 true (map (fun b => ([], EvPropose b)) [G3;G4;G5]) (init c4))).
+  commits (snd (run c4 3 src_dq (map (fun b => ([], EvPropose b)) [G3;G4;G5]) (init c4))).
